@@ -218,7 +218,7 @@ class Interp:
     def module_getattr(self, mod, name):
         if mod.external is not None:
             table = self.ext.get(mod.external)
-            if table is not None and name in table:
+            if table is not None and table.get(name) is not None:
                 return table[name]
             # submodule of external (e.g. os.path)
             sub = f"{mod.external}.{name}"
@@ -1207,14 +1207,29 @@ class Interp:
         q = self.full_qualname(f)
         if q in self.hooks:
             return self.hooks[q](self, ctx, f, args, kwargs)
-        if q in self.contracts and (q != self.under_test or ctx.depth > 0) and q not in self.inline:
+        if q in self.contracts and (q != self.under_test or ctx.depth > 0) and q not in self.inline and not self._inline_match_local(q):
             c = self.contracts[q]
             return c.apply(self, ctx, f, args, kwargs)
-        if ctx.depth > 0 and not (self.inline_all or q in self.inline or q in self.always_inline or self._inline_match(q)):
+        if ctx.depth > 0 and not (self.inline_all or q in self.inline or q in self.always_inline or self._inline_match(q)
+                                  or self._nested_of_allowed(f)):
             raise PyvcError(f"repo callee without contract (not declared inline): {q} at {ctx.where}")
         if ctx.depth > 0:
             ctx.inlined.add(q)
         return self.inline_call(ctx, f, args, kwargs)
+
+    def _nested_of_allowed(self, f):
+        """nested functions and lambdas are part of the function that defines them"""
+        env = getattr(f, "def_env", None)
+        while env is not None:
+            if env.func is not None:
+                q = self.full_qualname(env.func)
+                return (q == self.under_test or q in self.inline or q in self.always_inline or self._inline_match(q)
+                        or self._nested_of_allowed(env.func))
+            env = env.parent
+        return False
+
+    def _inline_match_local(self, q):
+        return any(p.endswith("*") and q.startswith(p[:-1]) for p in self.inline)
 
     def _inline_match(self, q):
         for p in list(self.inline) + list(self.always_inline):
